@@ -375,10 +375,14 @@ class Exec:
         if op != 'advance':
             for r in self.world.reqs[n_reqs:]:
                 r._explicit = True           # issued by the action itself, not by automation
+        idle = True
         if a.get('settle', True) and op not in ('advance',):
             self.settle()
-            self.quiet_points.append(len(self.actions))
-        self._quiet_now = (a.get('settle', True) or op == 'advance')
+            idle = self.world.app_log.busy == 0     # no handler is still taking its time
+            if idle:
+                self.quiet_points.append(len(self.actions))
+        self._quiet_now = (a.get('settle', True) or op == 'advance') and \
+            self.world.app_log.busy == 0
         for r in self.world.reqs[n_reqs:]:
             r._inside_step = r.done          # answered within the step that issued it
         self.collect()
@@ -544,6 +548,17 @@ class Exec:
         if conn is s.main_ws:
             s.causes.append({'t': self.now, 'cause': 'ws-close', 'step': len(self.actions),
                              'det': self.annotate_live(s)})
+        elif self._handshake_complete_on(s, conn):
+            # the whole handshake was sent on it (not yet confirmed at a quiet point): it may be
+            # the session's transport by now - a possible cause, never a certain one
+            s.causes.append({'t': self.now, 'cause': 'ws-close', 'step': len(self.actions),
+                             'det': None})
+
+    def _handshake_complete_on(self, s, conn):
+        for att in s.upg_attempts:
+            if att['conn'] is conn:
+                return [f for _, f in att['frames']][:2] == ['2probe', '5']
+        return False
 
     def op_ws_fail(self, a):
         s = self.sess(a['s'])
@@ -555,6 +570,11 @@ class Exec:
         if conn is s.main_ws:
             s.causes.append({'t': self.now, 'cause': 'ws-fail', 'step': len(self.actions),
                              'det': self.annotate_live(s)})
+        elif self._handshake_complete_on(s, conn):
+            # the whole handshake was sent on it (not yet confirmed at a quiet point): it may be
+            # the session's transport by now - a possible cause, never a certain one
+            s.causes.append({'t': self.now, 'cause': 'ws-fail', 'step': len(self.actions),
+                             'det': None})
 
     def op_pong(self, a):
         s = self.sess(a['s'])
@@ -681,7 +701,8 @@ class Exec:
 
     def op_advance(self, a):
         self.pass_time(a['dt'])
-        self.quiet_points.append(len(self.actions))
+        if self.world.app_log.busy == 0:
+            self.quiet_points.append(len(self.actions))
 
     def op_settle(self, a):
         pass
